@@ -8,7 +8,10 @@ not), so the second of two such twins is answered with the first one's result.
 `typed(cls)` derives, from any mapper class, the same mapper with *typed* structural keys in
 both tables.  If a discrepancy disappears with that single change and the input really holds
 a pair of ==-but-differently-typed composites, it is attributed to the finding; any other
-cause still shows with the typed keys and stays a violation.
+cause still shows with the typed keys and stays a violation.  Because typed(cls) replaces the
+key functions themselves, a defect IN them would be repaired along the way: the attribution
+also demands that `refkeys(cls)` -- the documented ==-keys re-implemented here -- fails in the
+same way as the real class.
 """
 from __future__ import annotations
 
@@ -38,6 +41,34 @@ class _TypedKeys:
         except KeyError:
             r = tab[key] = unc(expr, *args, **kwargs)
             return r
+
+
+class _RefKeys:
+    """the two key functions exactly as documented, re-implemented here: a run that fails with
+    the real class must fail the same way with these, or the real key functions are off"""
+
+    def get_cache_key(self, expr, *args, **kwargs):
+        return (type(expr), expr, args, immutabledict(kwargs))
+
+    def map_common_subexpression(self, expr, *args, **kwargs):
+        unc = getattr(self, "map_common_subexpression_uncached", None)
+        if unc is None:
+            return super().map_common_subexpression(expr, *args, **kwargs)
+        tab = self.__dict__.setdefault("_vf_ref_cse", {})
+        key = (expr, *args)
+        try:
+            return tab[key]
+        except KeyError:
+            r = tab[key] = unc(expr, *args, **kwargs)
+            return r
+
+
+def refkeys(cls):
+    try:
+        return _cache[("ref", cls)]
+    except KeyError:
+        t = _cache[("ref", cls)] = type("RefKeys" + cls.__name__, (_RefKeys, cls), {})
+        return t
 
 
 def typed(cls):
